@@ -13,13 +13,25 @@ type Ev map[string]any
 
 // Rec collects the events of one execution in a total order.
 type Rec struct {
-	mu  sync.Mutex
-	seq int
-	evs []Ev
+	mu    sync.Mutex
+	seq   int
+	evs   []Ev
+	muted bool
+}
+
+// Mute switches recording off and on (long preludes that only position the sequence counters).
+func (r *Rec) Mute(on bool) {
+	r.mu.Lock()
+	r.muted = on
+	r.mu.Unlock()
 }
 
 func (r *Rec) Emit(e Ev) {
 	r.mu.Lock()
+	if r.muted {
+		r.mu.Unlock()
+		return
+	}
 	r.seq++
 	e["seq"] = r.seq
 	r.evs = append(r.evs, e)
